@@ -63,6 +63,17 @@ def run(ctx):
     tc = TraceChecker(ctx, verdict, wd, "ConcTrace", "ConcTrace.cfg", inv, timeout=1800)
     r = vlib.tlc_model("TableConc", "TableConc.cfg", pid + "-model", workers=8, timeout=600)
     cov = {"model": {"spec": "TableConc.tla", "cfg": "TableConc.cfg", **r.summary(), "checked": "TypeOK RaceFree Linearizable NoTornRead"}}
+    if pid == "C06":
+        # the reload protocol step by step (copy under the read lock, private build, swap of both roots under the write lock,
+        # diff, free of the old generation) against readers; and the same with the pinned commit's unlocked root read, where
+        # TLC must find the use after free (the model can see the defect the steered reader looks for)
+        r2 = vlib.tlc_model("ReloadConc", "ReloadConc.cfg", pid + "-model2", workers=8, timeout=600)
+        rp = vlib.run_tlc("ReloadConc", "ReloadConc_peek.cfg", pid + "-model2p", workers=4, timeout=600)
+        if rp.violation is None:
+            raise vlib.InfraError("ReloadConc_peek.cfg is expected to violate an invariant (sanity of the model) but did not: %s" % rp.out[-400:])
+        cov["model_reload"] = {"spec": "ReloadConc.tla", "cfg": "ReloadConc.cfg", **r2.summary(),
+                               "checked": "TypeOK OneGeneration NoUseAfterFree Fresh RaceFree",
+                               "sanity": "ReloadConc_peek.cfg (root read before the lock) violates %s" % rp.violation}
     objs = vlib.build_lib(pid, "asan")
     exe = vlib.build_harness(pid, "asan", ["conc_harness.c"], objs, wraps=["pthread_rwlock_rdlock"])
     reads_total = 0
